@@ -724,7 +724,7 @@ Proof. exact Proofs.C10_KTGrammarFile.kt_grammar_witness. Qed.
 Print Assumptions C10_grammar_kotlin_witness.
 
 (* Kotlin, MULTI-FILE (folder output) mode, one crate's file (kt_generate_multi: `package <package>.<crate>`, the fixed
-   imports, one `import <package>.<crate>.<Type>` per imported type, every declaration): under the hypotheses of
+   imports, one `import <package>.<crate>.<prefix><Type>` per imported type, every declaration): under the hypotheses of
    C10_grammar_kotlin, a package that is not empty (the real CLI demands one for Kotlin; without it the import lines would
    start with a dot), a crate name that is an identifier (c10_crate_ok of the lexical theorem also admits a leading digit
    - a Cargo package `3d-tools` gives `package p.3d_tools`, which is not a package header - and dashes, which
@@ -741,7 +741,7 @@ Proof. exact Proofs.C10_KTGrammarMulti.kt_generate_multi_recognised. Qed.
 Print Assumptions C10_grammar_kotlin_multi.
 
 (* its hypotheses are satisfiable: the witness program above as the crate app_core importing two types of lib_crate is
-   accepted as 7 declarations with its package and import lines; a package segment that starts with a digit and an import
+   accepted as 7 declarations with its package and import lines (the imported names carry the prefix OP of the configuration); a package segment that starts with a digit and an import
    of a crate named with a dash are rejected *)
 Theorem C10_grammar_kotlin_multi_witness :
   Proofs.C10_KTGrammarTok.c10k_ident_ok (lit "app_core") = true /\
@@ -751,7 +751,7 @@ Theorem C10_grammar_kotlin_multi_witness :
     = Ok Proofs.C10_KTGrammarMulti.kgm_text /\
   c10_kt_recognise Proofs.C10_KTGrammarMulti.kgm_text = Some 7%nat /\
   contains_sub (lit "package com.agilebits.onepassword.app_core") Proofs.C10_KTGrammarMulti.kgm_text = true /\
-  contains_sub (lit "import com.agilebits.onepassword.lib_crate.Node") Proofs.C10_KTGrammarMulti.kgm_text = true /\
+  contains_sub (lit "import com.agilebits.onepassword.lib_crate.OPNode") Proofs.C10_KTGrammarMulti.kgm_text = true /\
   c10_kt_recognise (lit "package com.p.3d_tools" ++ nl) = None /\
   c10_kt_recognise (lit "package com.p.lib" ++ nl ++ lit "import com.p.lib-crate.Item" ++ nl) = None.
 Proof. exact Proofs.C10_KTGrammarMulti.C10_kt_grammar_multi_nonvacuous. Qed.
